@@ -1,3 +1,66 @@
-From YV Require Import PyBase Token Utils.
-Example c02_smoke : tok_positions (mk KText 3 [97;98]%N false) = [3;4]%Z.
-Proof. reflexivity. Qed.
+(* C02 -- text copied from the document maps to exactly the offset where it
+   stands.  Only statements here, closed by `exact`.  Model:
+   coq/model/{Scanner,Utils}.v with the tables generated from /repo.
+
+   Proved for every input: the scanner is faithful -- every token that is
+   not pinned holds exactly the source characters at its position (running
+   text, \verb and verbatim bodies, comments, macro names, special sequences
+   alike), so a replaced special sequence sits at its first character; and
+   get_txt_pos reports, for every character of such a token, the offset at
+   which the source holds that character.  Not proved: that the expander
+   moves copied tokens without changing position or text (arguments of
+   macros, \text in maths, footnotes); tied by the correspondence run and
+   the copy oracle of harness/props/c02.py on every generated case. *)
+From Coq Require Import String.
+From YV Require Import PyBase ShellMap Token Utils Scanner PState TokOk ScanFaithful
+                       SpecialsProofs Catalogue.
+Open Scope Z_scope.
+
+(* (1) every scanner token is pinned (an error mark) or a copy of the source
+   at its position *)
+Theorem C02_scanner_faithful : forall P latex,
+  Forall (faithful latex) (fst (scan P latex)).
+Proof. exact scan_faithful. Qed.
+Print Assumptions C02_scanner_faithful.
+
+(* (2) get_txt_pos: character c reported at p means source[p] = c
+   (0-based here; the wrapper adds 1, so source[p-1] = c there) *)
+Theorem C02_copied_characters : forall latex toks,
+  Forall (fun t => pfix t = false /\ src_at latex (pos t) (txt t)) toks ->
+  Forall2 (copy_of latex) (fst (get_txt_pos toks)) (snd (get_txt_pos toks)).
+Proof. exact get_txt_pos_copies. Qed.
+Print Assumptions C02_copied_characters.
+
+(* (3) a special sequence is replaced at the position of its first
+   character: the token stands at `start`, where the sequence begins ... *)
+Theorem C02_special_at_first_character : forall P latex,
+  desc_lenb (sp_specials P) = true ->
+  forall c s start t,
+  sp_is_space P c = false -> N.eqb c c_percent = false -> N.eqb c c_hash = false ->
+  find (fun t => starts_with t (c :: s)) (sp_specials P) = Some t ->
+  next_token P latex (c :: s) start = (SpecialT start t, length t, [])
+  /\ starts_with t (c :: s) = true
+  /\ forall t', In t' (sp_specials P) -> starts_with t' (c :: s) = true ->
+                (length t' <= length t)%nat.
+Proof. exact next_token_special. Qed.
+Print Assumptions C02_special_at_first_character.
+
+(* ... and the main loop puts the replacement text at that same position *)
+Theorem C02_special_replacement_position : forall T rd rec fuel st t b env_stop rout v,
+  tk t = KSpecial ->
+  forallb (fun x => negb (txt_is t x))
+          [s2l "$"; s2l "\("; s2l "$$"; s2l "\["; s2l "\\"; s_lbrace; s_rbrace] = true ->
+  assoc (txt t) (t_special_values T) = Some v ->
+  Exec.step_seq T rd rec fuel st (t :: b) env_stop rout =
+  rec (TSeq b env_stop (mk KText (pos t) v (pfix t) :: ActionT (pos t) :: rout)) st.
+Proof. exact step_seq_special. Qed.
+Print Assumptions C02_special_replacement_position.
+
+(* the hypotheses are met: scanner and get_txt_pos on a small document *)
+Example C02_nonvacuous :
+  let latex := s2l "a -- b" in
+  let toks := fst (scan (t_scan py_tables) latex) in
+  map (fun t => (pos t, txt t)) toks =
+    [(0, s2l "a"); (1, s2l " "); (2, s2l "--"); (4, s2l " "); (5, s2l "b")]
+  /\ desc_lenb (sp_specials (t_scan py_tables)) = true.
+Proof. split; reflexivity. Qed.
